@@ -13,6 +13,12 @@
    B is restarted once (MRestart, at every height between the on-chain resolution of the downstream
    HTLC and its burial; around the broadcast / the early fail-back when starved): what it fails back
    at startup is CodeReadBuried.
+   Other per-block work of the same channel coincides with a deadline block (variables coK .. coFast): on the block of a
+   deadline, the one before or the one after, the channel concerned (or a second channel with the same
+   peer) has another duty of its own -- a splice reaches its depth (splice_locked), a fresh channel
+   reaches its depth (channel_ready), the announcement depth is reached -- and the code's per-block
+   routine leaves through another of its exits (CodeBlockExits).  The deadline's action is due all
+   the same.
 
    The constants come from the code at every run: a changed buffer is re-model-checked and a race
    that is now lost shows up as a violated invariant of Deadlines.tla. *)
@@ -38,8 +44,16 @@ ASSUME ProbeDeltas \cap Deltas = {}
 VARIABLES
   starve,  \* the miner starves B's commitment transaction of the downstream channel beyond MBC blocks
            \* (outside the library's stated bounds: the only thing left to save is the upstream channel)
-  rsH      \* height at which B was restarted (-1: never)
-mcvars == <<vars, starve, rsH>>
+  rsH,     \* height at which B was restarted (-1: never)
+  coK,     \* other per-block work: "none" or its kind (CoKinds)
+  coH,     \* ... the block on which it is due (-1: none)
+  coS,     \* ... the channel concerned: "dn" (B-C) | "up" (A-B) | "-"
+  coN,     \* ... the deadline it was laid next to (name) and
+  coO,     \* ... its offset from that deadline's block (-1, 0, 1)
+  coFast   \* with such work under way the miner is either quick (every transaction in the first possible
+           \* block) or slow (in the last allowed one)
+covars == <<coK, coH, coS, coN, coO, coFast>>
+mcvars == <<vars, starve, rsH, covars>>
 
 \* ------------------------------------------------------------ rules transcribed from the code
 \* (hh = best block height known to the node)
@@ -73,6 +87,50 @@ CodeFailBackClosed(hh, Eu) == ~(Eu > hh + LGP)
 \* the confirmed commitment must also be in htlcs_resolved_on_chain (its timeout reached the threshold)
 CodeReadBuried(hh, hc) == hc + ARD - 1 <= hh
 
+\* ------------------------------------------------------------ other per-block work of the channel
+\* channel.rs FundedChannel::do_best_block_updated (called for every channel on every block, by
+\* ChannelManager::best_block_updated and ::block_connected through do_chain_event) first takes the timed-out
+\* HTLCs out of the holding cell and then leaves through one of three Ok exits: "ready" (`return Ok((Some(
+\* FundingConfirmedMessage::Establishment(channel_ready)), timed_out_htlcs, announcement_sigs))`: the funding
+\* reached its depth), "splice" (`return Ok((Some(FundingConfirmedMessage::Splice(..)), timed_out_htlcs,
+\* announcement_sigs))`: a splice reached its depth) and "plain" (`Ok((None, timed_out_htlcs,
+\* announcement_sigs))`, with announcement_signatures when the announcement depth is reached).  Every exit
+\* hands the timed-out HTLCs to do_chain_event, which fails them back.  FundedChannel::transactions_confirmed
+\* (depth 1: channel_ready / splice_locked come from there) carries no timed-out HTLCs and is followed or
+\* preceded by best_block_updated for the same block.
+CodeBlockExits == {"ready", "splice", "plain"}
+CodeExitCarriesTimedOut(exit) == exit \in CodeBlockExits
+\* spec mutant (substituted for CodeExitCarriesTimedOut by the check's second TLC run, which must report
+\* NeverShowOrForwardTooSoon -- the forgotten HTLC goes out when the peer answers -- or BoundedLoss): the
+\* splice exit hands over an empty list
+MutExitSpliceDrops(exit) == exit \in CodeBlockExits \ {"splice"}
+\* the kinds of work: <<what, minimum depth, which confirmation of its transaction is the block coH>>
+CoKinds == {"splice6", "splice1", "spliceann", "open6", "open1", "openann"}
+\* the exit the per-block routine takes on block n for the channel concerned
+CodeExitOn(n) == IF coH # n THEN "plain" ELSE IF coK = "splice6" THEN "splice" ELSE IF coK = "open6" THEN "ready" ELSE "plain"
+
+FirstAt(P(_), D) == P(D) /\ ~P(D - 1)
+\* the deadlines of the scenario that fall on block D (as far as the state shows them): <<name, channel>>
+DeadlinesOn(D) ==
+  {x \in {<<"cell", "dn">>, <<"autofail", "up">>, <<"godn", "dn">>, <<"goup", "up">>, <<"failclosed", "up">>, <<"failburied", "up">>} :
+    CASE x[1] = "cell" -> dnMode = "cell" /\ dn = "cell" /\ FirstAt(LAMBDA t : CodeHoldingCellTimeout(t, ed), D)
+      [] x[1] = "autofail" -> role = "final" /\ dl > 0 /\ FirstAt(LAMBDA t : CodeAutoFail(t, eu), D)
+      [] x[1] = "godn" -> role = "fwd" /\ dn = "pending" /\ (cD = "open" \/ cDb = D) /\ FirstAt(LAMBDA t : CodeGoOnChainOut(t, ed), D)
+      [] x[1] = "goup" -> up = "fulfilled" /\ upMode = "silent" /\ (cU = "open" \/ cUb = D) /\ FirstAt(LAMBDA t : CodeGoOnChainIn(t, eu), D)
+      [] x[1] = "failclosed" -> role = "fwd" /\ upMode = "honest" /\ ~pre /\ cD # "open" /\ dn \in {"pending", "gone"}
+                                /\ (up = "held" \/ upH = D) /\ FirstAt(LAMBDA t : CodeFailBackClosed(t, eu), D)
+      [] x[1] = "failburied" -> role = "fwd" /\ ~pre /\ dn = "gone" /\ (up = "held" \/ upH = D) /\ FirstAt(LAMBDA t : CodeBuried(t, dnH), D)}
+\* scenarios that get such work (all holding-cell and final-hop ones; of the others one delta and no slack)
+CoWindow == role = "final" \/ dnMode = "cell" \/ (d = MIND /\ eu - ed = d)
+\* laid on block n: next to a deadline (one block before, on it, one block after)
+CoStep(n) ==
+  \/ UNCHANGED covars
+  \/ /\ coK = "none" /\ CoWindow
+     \* (quick or slow miner: only where transactions of B are still to be confirmed)
+     /\ \E o \in {-1, 0, 1} : \E x \in DeadlinesOn(n - o) : \E k \in CoKinds,
+                f \in (IF x[1] \in {"godn", "goup"} THEN BOOLEAN ELSE {TRUE}) :
+          coK' = k /\ coH' = n /\ coS' = x[2] /\ coN' = x[1] /\ coO' = o /\ coFast' = f
+
 \* ------------------------------------------------------------ scenarios
 Scenario(r, um, dm) ==
   \/ r = "final" /\ dm = "offchain"
@@ -88,6 +146,7 @@ Init ==
   \* the other configured deltas: acceptance probes only (decided at once, C answers at once)
   /\ d \in ProbeDeltas => (role = "fwd" /\ upMode = "honest" /\ dnMode = "offchain")
   /\ starve \in BOOLEAN /\ rsH = -1
+  /\ coK = "none" /\ coH = -1 /\ coS = "-" /\ coN = "-" /\ coO = 0 /\ coFast = FALSE
   /\ starve => (role = "fwd" /\ upMode = "honest" /\ dnMode \in {"silent", "early", "dust"} /\ d \in Deltas)
   /\ eu = 0 /\ ed = 0 /\ dl = 0 /\ up = "none" /\ upH = -1 /\ pre = FALSE /\ preLate = FALSE
   /\ dn = "none" /\ dnH = -1 /\ xH = -1 /\ cD = "open" /\ cDb = -1 /\ cDc = -1 /\ toB = -1
@@ -121,7 +180,7 @@ A_MRefuseForward == role = "fwd" /\ up = "offered" /\ dn = "none" /\ ~CodeFwdAcc
 \* the downstream peer owes B a revoke_and_ack: the accepted forward waits in the holding cell, is
 \* failed back when it gets too close to its expiry, and goes out when the peer finally answers
 A_MQueue == dnMode = "cell" /\ CodeFwdAccept(h, eu, ed, d) /\ Queue
-EnCellTimeout == up = "offered" /\ dn = "cell" /\ CodeHoldingCellTimeout(h, ed)
+EnCellTimeout == up = "offered" /\ dn = "cell" /\ CodeHoldingCellTimeout(h, ed) /\ CodeExitCarriesTimedOut(CodeExitOn(h))
 A_MCellTimeout == EnCellTimeout /\ FailUp
 
 \* ---- what B does by itself when a block is connected / a message arrives (all immediate)
@@ -176,7 +235,7 @@ MRestart ==
   /\ dnMode \in {"silent", "early", "dust"}
   \* (in the starved case: right after the broadcast, and in the last blocks before the early fail-back)
   /\ (cD = "conf" /\ dn = "gone") \/ (starve /\ cD = "bcast" /\ (h <= cDb + 1 \/ h + LGP + 2 >= eu))
-  /\ rsH' = h /\ UNCHANGED starve
+  /\ rsH' = h /\ UNCHANGED <<starve, covars>>
   /\ Restart
 
 Finished == /\ up \in {"fulfilled", "failed"} /\ (Settled \/ lost \/ suC = -2) /\ dn # "pending"
@@ -212,10 +271,21 @@ A_MNewBlock ==
        /\ (toB >= 0 /\ cD = "conf" /\ dn = "pending" /\ n >= rT2 + MBC) => ("timeoutD" \in cf \/ "claimD" \in cf)
        /\ (cU = "bcast" /\ n >= cUb + MBC) => "commitU" \in cf
        /\ (suB >= 0 /\ cU = "conf" /\ suC = -1 /\ n >= rT5 + MBC) => ("successU" \in cf \/ "timeoutU" \in cf)
+       \* with other work under way: a quick miner (whatever can be mined is) or a slow one (only what must be)
+       /\ (coK # "none" /\ coFast) =>
+            (/\ ((cD = "bcast" /\ ~starve) => "commitD" \in cf)
+             /\ ((toB >= 0 /\ cD = "conf" /\ dn = "pending" /\ n > ed) => ("timeoutD" \in cf \/ "claimD" \in cf))
+             /\ (cU = "bcast" => "commitU" \in cf)
+             /\ ((suB >= 0 /\ cU = "conf" /\ suC = -1) => ("successU" \in cf \/ "timeoutU" \in cf)))
+       /\ (coK # "none" /\ ~coFast) =>
+            (/\ (("commitD" \in cf /\ ~starve) => n >= cDb + MBC)
+             /\ (("timeoutD" \in cf \/ "claimD" \in cf) => n >= rT2 + MBC)
+             /\ ("commitU" \in cf => n >= cUb + MBC)
+             /\ (("successU" \in cf \/ "timeoutU" \in cf) => n >= rT5 + MBC))
        /\ Block(cf)
 
 \* the actions of Next: the steps above leave the scenario parameters of this module alone
-K == UNCHANGED <<starve, rsH>>
+K == UNCHANGED <<starve, rsH, covars>>
 MOffer == A_MOffer /\ K
 MShow == A_MShow /\ K
 MRefuseFinal == A_MRefuseFinal /\ K
@@ -239,7 +309,7 @@ MClaim == A_MClaim /\ K
 MClaimLate == A_MClaimLate /\ K
 MDnFulfil == A_MDnFulfil /\ K
 MDnFail == A_MDnFail /\ K
-MNewBlock == A_MNewBlock /\ K
+MNewBlock == A_MNewBlock /\ UNCHANGED <<starve, rsH>> /\ CoStep(h + 1)
 
 NextB ==
   \/ MOffer \/ MShow \/ MRefuseFinal \/ MForward \/ MRefuseForward
@@ -262,5 +332,7 @@ EmitScripts ==
                                d |-> d, dl |-> dl, x |-> xH, dnres |-> dn, upres |-> up,
                                c1d |-> cDc - cDb, c2d |-> dnH - Max(toB, cDc), cdconf |-> cDc,
                                c1u |-> cUc - cUb, c2u |-> suC - Max(suB, cUc), cuconf |-> cUc,
-                               starve |-> starve, rsh |-> rsH, cdb |-> cDb, dnh |-> dnH, uph |-> upH])>>)
+                               starve |-> starve, rsh |-> rsH, cdb |-> cDb, dnh |-> dnH, uph |-> upH,
+                               cok |-> coK, coh |-> IF coK = "none" THEN 0 ELSE coH - H0, cos |-> coS, con |-> coN,
+                               coo |-> coO, cofast |-> coFast])>>)
 =============================================================================
